@@ -42,7 +42,10 @@ func runC12Stream(ops []c12Op) (trace []string, finalClosed []int, findings []Mo
 	type cl struct {
 		conn   net.Conn
 		closed chan struct{}
+		epoch  int // number of full releases of the address before this connection arrived
 	}
+	epoch := 0
+	reportedDrop := map[int]bool{}
 	clients := map[int]*cl{}
 	var order []int
 	delivered := map[int]bool{}
@@ -125,7 +128,7 @@ func runC12Stream(ops []c12Op) (trace []string, finalClosed []int, findings []Mo
 				continue // refused: the socket is not bound
 			}
 			port := c.LocalAddr().(*net.TCPAddr).Port
-			k := &cl{c, make(chan struct{})}
+			k := &cl{c, make(chan struct{}), epoch}
 			clients[port] = k
 			order = append(order, port)
 			go func() {
@@ -166,12 +169,33 @@ func runC12Stream(ops []c12Op) (trace []string, finalClosed []int, findings []Mo
 			handles[op.H].Close()
 			if !closedH[op.H] {
 				openN--
+				if openN == 0 {
+					epoch++
+				}
 				rebind()
 			}
 			closedH[op.H] = true
 			trace = append(trace, fmt.Sprintf("OClose %d", op.H))
 		}
 		poll(35 * time.Millisecond)
+		// monitor: while some handle has been open ever since a connection arrived, the server must
+		// not close that connection: it waits for an accept
+		if openN > 0 {
+			for _, port := range order {
+				k := clients[port]
+				if delivered[port] || k.epoch != epoch {
+					continue
+				}
+				select {
+				case <-k.closed:
+					if !reportedDrop[port] {
+						reportedDrop[port] = true
+						findings = append(findings, MonitorFinding{"C12/conn-dropped-while-handle-open", "a connection that reached the socket was closed by the server although a handle has been open ever since it arrived (it should wait for an accept)", map[string]interface{}{"ops": ops, "trace": trace}})
+					}
+				default:
+				}
+			}
+		}
 	}
 	// end: close everything, let the dust settle
 	for h := range handles {
